@@ -151,7 +151,41 @@ def correspond(ctx):
         impl.append(sh(mn) + ' | ' + sh(mx))
         c2.count('n=%d' % n)
     c2.compare(lines, [m.strip() for m in common.driver(lines)], impl)
-    return [c, c2]
+
+    # ---- Line.radialrange, the real method on exact rationals (abs -> exact sqrt where rational, else (x+1)/2) ------------
+    from ..exactnum import Q, QC, qstr
+    c3 = Corr('Line.radialrange')
+    lines, impl = [], []
+    for it in range(ctx.n(300, 4000)):
+        g = lambda: Fr(r.randint(-6, 6), r.choice([1, 1, 2]))
+        p0, p1 = (g(), g()), (g(), g())
+        if p0 == p1:
+            continue
+        cls = r.choice(['generic', 'generic', 'on-normal-at-start', 'on-normal-at-end', 'at-start', 'at-end', 'equidistant', 'beyond'])
+        d = (p1[0] - p0[0], p1[1] - p0[1])
+        nrm = (-d[1], d[0])
+        k = Fr(r.randint(-3, 3), 2)
+        if cls == 'generic':
+            z = (g(), g())
+        elif cls == 'on-normal-at-start':
+            z = (p0[0] + k * nrm[0], p0[1] + k * nrm[1])
+        elif cls == 'on-normal-at-end':
+            z = (p1[0] + k * nrm[0], p1[1] + k * nrm[1])
+        elif cls == 'at-start':
+            z = p0
+        elif cls == 'at-end':
+            z = p1
+        elif cls == 'equidistant':
+            z = ((p0[0] + p1[0]) / 2 + k * nrm[0], (p0[1] + p1[1]) / 2 + k * nrm[1])
+        else:
+            t = r.choice([Fr(-1, 2), Fr(3, 2), Fr(2)])
+            z = (p0[0] + t * d[0] + k * nrm[0], p0[1] + t * d[1] + k * nrm[1])
+        (dmin, tmin), (dmax, tmax) = P.Line(QC(*p0), QC(*p1)).radialrange(QC(*z))
+        lines.append('lineradial ' + ' '.join(qstr(Q(v)) for v in p0 + p1 + z))
+        impl.append(' '.join(qstr(Q(v) if not isinstance(v, Q) else v) for v in (dmin, tmin, dmax, tmax)))
+        c3.count(cls)
+    c3.compare(lines, [m.strip() for m in common.driver(lines)], impl)
+    return [c, c2, c3]
 
 
 def sample(ctx, budget=1.0, hint=None, broken=None):
